@@ -10,13 +10,133 @@ S: random histories (the same generator as C02, plus operator graphs): before an
 """
 import numpy as np
 
-from .. import common, histgen, apalache
+from .. import common, histgen, apalache, canon, simtrace, tlc
 from ..parallel import validate_chunks, pmap
 
 
 def _hist(arg):
     seed, quick = arg
     return histgen.run_history(common.import_repo(), seed, quick)[1]
+
+
+def replay_behaviour(arg):
+    """one behaviour of Heap.tla stepped through real objects (spec -> code): the objects of the model are MPS of one sector, the
+    action kinds are realised by public operations (pure: as_vector / norm / vdot / operator_average; fresh: constructor,
+    from_vector, +, -, apply_operator with a fixed MPO; inplace: orthonormalize / compress / zero_qnumbers-free rewrites;
+    poke: the user's own in-place change of one tensor).  After every action the abstract state of the code - live set,
+    sharing relation, set of objects whose digest changed - is compared with the model's."""
+    behaviour, seed = arg
+    ptn = common.import_repo()
+    rng = np.random.default_rng(seed)
+    L = int(rng.integers(1, 5))
+    qd = [0, 1] if rng.random() < 0.7 else [0, 0]
+    qtot = int(rng.integers(0, L + 1)) if qd[1] else 0
+    _, qD = canon.gen_charges(rng, L, 2, 'mps', 'u1', qd=qd, q_start=0, qtot=qtot, maxD=3, dead=False)
+    _, qDo = canon.gen_charges(rng, L, 2, 'mpo', 'u1', qd=qd, q_start=0, qtot=0, maxD=2, dead=False)
+    env = {'H': ('mpo', ptn.MPO(qd, qDo, fill='random', rng=rng)), 'v': ('vec', [rng.normal(size=2**L)])}
+    objs = {}
+    done = 0
+
+    def fresh_mps():
+        return ptn.MPS(qd, qD, fill='random', rng=rng)
+
+    for action, st in behaviour:
+        last = st['last']
+        op, t = last['op'], last['target']
+        args = sorted(simtrace.as_set(last['operands'])) if op != 'init' else []
+        pool = {**env, **{f'o{k}': ('mps', x) for k, x in objs.items()}}
+        before = {k: histgen.digest(c, o) for k, (c, o) in pool.items()}
+        try:
+            if op == 'init':
+                objs[1] = fresh_mps()
+            elif op == 'pure':
+                for a in args:
+                    objs[a].as_vector()
+                    ptn.norm(objs[a])
+                    ptn.operator_average(objs[a], env['H'][1])
+                    for b in args:
+                        ptn.vdot(objs[a], objs[b])
+            elif op == 'fresh':
+                if not args:
+                    objs[t] = fresh_mps() if (qd[1] or rng.random() < 0.5) else ptn.MPS.from_vector(2, L, env['v'][1][0], tol=0.0)
+                    if not qd[1] and len(objs[t].qD[-1]) and True:
+                        pass
+                elif len(args) == 1:
+                    x = objs[args[0]]
+                    k = int(rng.integers(4))
+                    objs[t] = (x + x) if k == 0 else (x - x) if k == 1 else ptn.apply_operator(env['H'][1], x) if k == 2 else (x + fresh_mps())
+                else:
+                    r = objs[args[0]]
+                    for a in args[1:]:
+                        r = (r - objs[a]) if rng.random() < 0.3 else (r + objs[a])
+                    objs[t] = r
+            elif op == 'inplace':
+                x = objs[t]
+                mode = str(rng.choice(['left', 'right']))
+                if rng.random() < 0.5:
+                    x.compress(float(rng.choice([0.0, 1e-2])), mode=mode)
+                else:
+                    x.orthonormalize(mode=mode)
+            elif op == 'poke':
+                x = objs[t]
+                for a in x.A:
+                    a *= 1.5
+                    a += 0.25 * (a != 0)
+            else:
+                return 'machinery', f'unknown action {op}', done
+        except BaseException as ex:  # noqa
+            if op == 'fresh' and isinstance(ex, (ValueError, AssertionError)) and any(a in str(ex) for a in ('quantum', 'dimension', 'shape')):
+                return 'skipped', f'operands not compatible: {str(ex)[:60]}', done
+            return 'violation', f'{op}: the model allows the call, the code raised {type(ex).__name__}: {str(ex)[:80]}', done
+        done += 1
+        live = sorted(simtrace.as_set(st['live']))
+        if live != sorted(objs):
+            return 'machinery', f'live sets differ: model {live} code {sorted(objs)}', done
+        pool = {**env, **{f'o{k}': ('mps', x) for k, x in objs.items()}}
+        # NoSharing (model: bufs of distinct live objects are disjoint)
+        sh = histgen.sharing_pairs(pool)
+        if sh:
+            return 'violation', f'after {op}: objects {sh[0]} share memory (operands {args}, result {t})', done
+        # Frozen (model: only buffers of last.target change their digest)
+        changed = sorted(k for k in before if histgen.digest(*pool[k]) != before[k])
+        allowed = [f'o{t}'] if op in ('inplace', 'poke') else []
+        extra = [k for k in changed if k not in allowed]
+        if extra:
+            return 'violation', f'after {op} on {t if t else args}: object {extra[0]} changed although it is not the target', done
+        if op == 'poke' and f'o{t}' not in changed:
+            return 'diverged', 'poke of an all-zero object changes nothing (sparsity leaves no entry to change)', done
+        if op == 'fresh':
+            # a later change of the result must not reach anybody else (and the other way round is covered by later pokes)
+            for k in histgen.poke(pool, f'o{t}'):
+                return 'violation', f'after {op}: a change of the result {t} changed object {k}', done
+    return 'ok', '', done
+
+
+def replay_heap(ctx):
+    prefix = ctx.work + '/heapsim'
+    r = tlc.run('Heap', ctx.work, 'heapsim', workers=1, constants=dict(NOBJ=3, NBUF=6, AliasBug='FALSE'), invariants=['NoSharing'],
+                constraint='DigBound', simulate=dict(num=ctx.pick(300, 6000), file=prefix), depth=ctx.pick(9, 12), seed=ctx.seed + 19, timeout=1500)
+    ctx._account('heapsim', 'Heap', r, 'simulate')
+    if not r.ok:
+        raise common.SpecError(f'Heap simulation violated {r.violated}')
+    behaviours = simtrace.load_all(prefix)
+    res = pmap(replay_behaviour, [(b, ctx.seed * 104729 + k) for k, b in enumerate(behaviours)])
+    tally, why = {}, {}
+    for k, (verdict, detail, done) in enumerate(res):
+        tally[verdict] = tally.get(verdict, 0) + 1
+        ctx.traces += 1 if verdict in ('ok', 'violation') else 0
+        if verdict == 'machinery':
+            raise RuntimeError(f'Heap replay: {detail}')
+        if verdict in ('skipped', 'diverged'):
+            why[detail[:80]] = why.get(detail[:80], 0) + 1
+        if verdict == 'violation':
+            ops = [st['last']['op'] for _, st in behaviours[k]]
+            ctx.violation('replay:' + detail.split(':')[0][:40] + ':' + detail.split(': ', 1)[-1][:30],
+                          f'behaviour {k} of Heap.tla ({ops}): {detail}', dict(behaviour=k, seed=ctx.seed, ops=ops))
+    ctx.notes['heap_behaviours_replayed'] = tally
+    ctx.notes['heap_replay_skipped_because'] = why
+    ctx.notes['heap_actions_replayed'] = sum(d for _, _, d in res)
+    ctx.log(f'{len(behaviours)} TLC-simulated behaviours of Heap.tla replayed on real objects: {tally}, {ctx.notes["heap_actions_replayed"]} actions')
 
 
 def run(ctx):
@@ -46,6 +166,8 @@ def run(ctx):
         ctx.notes['apalache_inductive'] = res
     else:
         ctx.notes['apalache_inductive'] = 'apalache-mc not on PATH: skipped'
+    if ctx.replay is None:
+        replay_heap(ctx)
     public = sorted(n for n in dir(ptn) if not n.startswith('_'))
     ctx.notes['public_names'] = len(public)
     seeds = [ctx.replay['replay']['seed']] if ctx.replay is not None else [int(x) for x in rng.integers(1 << 30, size=ctx.pick(700, 16000))]
